@@ -355,7 +355,7 @@ func (g *jgen) object(depth int, allowEmbed bool) *JS {
 		return o
 	}
 	o.Members = g.fields(depth, g.rng.Intn(4), used)
-	switch g.rng.Intn(5) {
+	switch g.rng.Intn(6) {
 	case 0:
 		o.AddlAny = true
 	case 1:
@@ -363,6 +363,9 @@ func (g *jgen) object(depth int, allowEmbed bool) *JS {
 		if o.Addl.Kind == "int" {
 			o.Addl.Bits = 64
 		}
+	case 2:
+		// nullable values in the map (Nullable[T] reaches the encoder by value there)
+		o.Addl = &JS{Kind: "null", Inner: &JS{Kind: []string{"str", "bool"}[g.rng.Intn(2)]}}
 	}
 	return o
 }
@@ -706,6 +709,14 @@ func runJSON(c runCfg, prop string) error {
 				st, extra = "builderr", " detail="+dialect.Hx(p.BuildErr)
 			}
 			impl[i] = "SKIP gen=" + st + extra
+		case "UB":
+			p := byName[f[1]]
+			if p == nil || !p.OK() {
+				impl[i] = "SKIP pkg-unavailable"
+				continue
+			}
+			send = append(send, fmt.Sprintf("%s REQ authdflt=any,reenc=1 POST %s %s %s", f[1], dialect.Hx("/t/"+f[2]), dialect.Hx("Content-Type:application/json\n"), f[3]))
+			idx = append(idx, i)
 		case "E", "U", "EO", "UO", "EK":
 			p := byName[f[1]]
 			if p == nil || !p.OK() {
@@ -725,6 +736,23 @@ func runJSON(c runCfg, prop string) error {
 	}
 	for k, i := range idx {
 		impl[i] = res[k]
+		if strings.HasPrefix(lines[i], "UB ") {
+			// the server's Parse(): accepted (with the JSON the parsed body re-encodes to) or rejected (with the error)
+			kv := map[string]string{}
+			for _, t := range strings.Fields(res[k]) {
+				if j := strings.Index(t, "="); j > 0 {
+					kv[t[:j]] = t[j+1:]
+				}
+			}
+			switch {
+			case strings.HasPrefix(kv["parse"], "Err("):
+				impl[i] = "impl=" + kv["parse"]
+			case strings.HasPrefix(kv["reenc"], "json:"):
+				impl[i] = "impl=OK reenc=" + strings.TrimPrefix(kv["reenc"], "json:")
+			default:
+				impl[i] = "impl=NOOBS:" + dialect.Hx(res[k])
+			}
+		}
 	}
 	// EK lines: the implementation's JSON judged by kin-openapi's validator against the component schema
 	loaded := map[string]*openapi3.Swagger{}
@@ -760,6 +788,7 @@ func runJSON(c runCfg, prop string) error {
 }
 
 func jsonCases(c runCfg, prop string) ([]*scratch.Pkg, []string, map[string]interface{}) {
+	serverBody := map[string]bool{}
 	rng := rand.New(rand.NewSource(c.Seed))
 	g := &jgen{rng: rng}
 	npk := 12
@@ -986,6 +1015,23 @@ func jsonCases(c runCfg, prop string) ([]*scratch.Pkg, []string, map[string]inte
 		sp.CompSchemas = comps
 		// one operation so that handler.go/router.go exist
 		sp.Paths = []*dialect.PathItem{{Raw: "/x", Ops: []*dialect.Op{{Method: "GET", Responses: []dialect.Response{{Status: "200"}}}}}}
+		// the object types as request bodies (C08: "this holds for request bodies parsed by the server as well"): in place by $ref to
+		// the schema, and through components.requestBodies
+		sp.CompBodies = map[string]dialect.Body{}
+		bodyOps := 0
+		for ti, s := range tops {
+			if s.Kind != "obj" || bodyOps >= 4 {
+				continue
+			}
+			b := dialect.Body{Content: "application/json", Schema: &dialect.Schema{Ref: names[ti]}, Required: true}
+			if bodyOps%2 == 0 {
+				sp.CompBodies["RB"+names[ti]] = b
+				b = dialect.Body{Ref: "RB" + names[ti]}
+			}
+			sp.Paths = append(sp.Paths, &dialect.PathItem{Raw: "/t/" + names[ti], Ops: []*dialect.Op{{Method: "POST", Body: &b, Responses: []dialect.Response{{Status: "200"}}}}})
+			serverBody[pkg+" "+names[ti]] = true
+			bodyOps++
+		}
 		p := &scratch.Pkg{Name: pkg, Doc: sp.Doc(), Opts: gen.Options{API: true, DoNotEdit: true}}
 		pkgs = append(pkgs, p)
 		lines = append(lines, DLine(p))
@@ -1048,6 +1094,14 @@ func jsonCases(c runCfg, prop string) ([]*scratch.Pkg, []string, map[string]inte
 			}
 			lines = append(lines, or.lines...)
 			lines = append(lines, cases...)
+			if serverBody[pkg+" "+names[ti]] {
+				for _, cl := range cases {
+					if strings.HasPrefix(cl, "U ") {
+						lines = append(lines, "UB "+cl[2:])
+						nU++
+					}
+				}
+			}
 		}
 		lines = append(lines, oneOfLines...)
 	}
